@@ -29,6 +29,8 @@ type Ctx struct {
 	dtypes   map[string]bool
 	hyps     []string // assertions (hypotheses), in generation order
 	htag     []int    // state id under which each hypothesis was generated (0 = global)
+	hgroup   []string // clause group of each hypothesis ("" = visible to every obligation)
+	group    string   // group of the clause currently being assumed or checked
 	tag      int      // current state id
 	parents  map[int][]int
 	n        int
@@ -54,6 +56,7 @@ type Obligation struct {
 	state   int  // id of the symbolic state the obligation was generated in
 	Soft    bool // overflow etc.: never a violation
 	Restricted bool // Props comes from a clause-level restriction
+	Group   string // clause group ([#g] label): sees the hypotheses of that group
 	Vacuity bool // expected to be SAT (reachability cover)
 	// results
 	Status  string // discharged | failed | unknown
@@ -97,6 +100,7 @@ func (c *Ctx) assume(t string) {
 	}
 	c.hyps = append(c.hyps, t)
 	c.htag = append(c.htag, c.tag)
+	c.hgroup = append(c.hgroup, c.group)
 }
 
 // assumeGlobal records a fact that is independent of the program point
@@ -107,6 +111,7 @@ func (c *Ctx) assumeGlobal(t string) {
 	}
 	c.hyps = append(c.hyps, t)
 	c.htag = append(c.htag, 0)
+	c.hgroup = append(c.hgroup, "")
 }
 
 // ancestors returns the set of state ids from which state id is reachable
@@ -656,6 +661,13 @@ func (o *Obligation) render() string {
 	// conditions of other branches
 	anc := c.ancestors(o.state)
 	for i, h := range c.hyps[:o.nhyps] {
+		if g := c.hgroup[i]; g != "" && o.Group != "" && g != o.Group {
+			// the obligations of a grouped clause ([#g]) are not given the
+			// hypotheses of other groups (dropping hypotheses is sound); it keeps
+			// apart facts that would otherwise feed each other's quantifier
+			// instantiation for ever (e.g. the two directions of "is a permutation")
+			continue
+		}
 		if anc[c.htag[i]] {
 			b.WriteString("(assert " + h + ")\n")
 		}
